@@ -398,8 +398,42 @@ Theorem C06_translation_is_the_model :
 Proof.
   exact (fun I eat finish complete fmatch w =>
     conj (gen_process_chunk_equiv I eat complete fmatch w)
-   (conj (gen_read_equiv I eat finish complete fmatch w)
-   (conj (gen_next_equiv I eat finish complete fmatch w)
+   (conj (gen_read_file_equiv I eat finish complete fmatch w)
+   (conj (gen_next_iter_equiv I eat finish complete fmatch w)
    (conj (gen_finish_equiv I finish w) (gen_format_equiv I complete fmatch w))))).
 Qed.
 Print Assumptions C06_translation_is_the_model.
+
+(* ---- source faults --------------------------------------------------------------------- *)
+(* The source's own read()/next() may raise ANY exception at ANY call and go on afterwards
+   (a transient error, a resumable iterator).  Such a call gives the reader that exception
+   and leaves the wrapper exactly as it was: the rest of the session is what it would be had
+   the failed call not happened (only StopIteration from next() finishes the inspectors). *)
+Theorem C06_source_fault_transparent :
+  forall I eat finish complete fmatch (w : wrapper I) l1 e l2,
+  w_step I eat finish complete fmatch gen_shape w (InSrcErr e) = (w, [], OutExn e) /\
+  w_run I eat finish complete fmatch gen_shape w (l1 ++ InSrcErr e :: l2) =
+    (let (w1, r1) := w_run I eat finish complete fmatch gen_shape w l1 in
+     let (w2, r2) := w_run I eat finish complete fmatch gen_shape w1 l2 in
+     (w2, r1 ++ {| sr_in := InSrcErr e; sr_tr := []; sr_out := OutExn e |} :: r2)) /\
+  w_run I eat finish complete fmatch gen_shape w (l1 ++ l2) =
+    (let (w1, r1) := w_run I eat finish complete fmatch gen_shape w l1 in
+     let (w2, r2) := w_run I eat finish complete fmatch gen_shape w1 l2 in (w2, r1 ++ r2)).
+Proof. exact (fun I eat finish complete fmatch => source_fault_transparent I eat finish complete fmatch gen_shape). Qed.
+Print Assumptions C06_source_fault_transparent.
+
+(* read()/__next__() as TRANSLATED from the source, over any source whatsoever: what reaches
+   the wrapper core is InChunk for a chunk, InStop for StopIteration from next() only, and
+   InSrcErr e (wrapper untouched) for every other exception *)
+Theorem C06_translated_read_next_any_source :
+  forall I eat finish complete fmatch (Src : Type) (w : wrapper I) (s : Src),
+  (forall src_read size, gen_read I eat complete fmatch Src src_read w s size =
+     let '(w', s', tr, inp, o) := w_read_on I eat finish complete fmatch gen_shape Src src_read w s size in (w', s', out_res o)) /\
+  (forall src_next, gen_next I eat finish complete fmatch Src src_next w s =
+     let '(w', s', tr, inp, o) := w_next_on I eat finish complete fmatch gen_shape Src src_next w s in (w', s', out_res o)).
+Proof.
+  exact (fun I eat finish complete fmatch Src w s =>
+    conj (fun src_read size => gen_read_equiv I eat finish complete fmatch Src src_read w s size)
+         (fun src_next => gen_next_equiv I eat finish complete fmatch Src src_next w s)).
+Qed.
+Print Assumptions C06_translated_read_next_any_source.
